@@ -716,6 +716,10 @@ func (p *Prog) serveLoop(prop string) *serveResult {
 				if cur.name == "ctxstate" {
 					st.Ev |= allCtxBits
 				}
+			case isCallTo(c, fIsHTTP11) && inL[b] && st.Has(evHandler) && len(c.Common().Args) > 0 && strings.Contains(fieldPath(c.Common().Args[0]), "Request"):
+				// the protocol version that decides the keep-alive header is that of the request that was served
+				check("C10|R3|protocol version for the keep-alive header is read from the served request, not from a ctx swapped in after the handler", !st.Has(evCtxSwapped), st, in.Pos(),
+					"after a timed-out handler the loop holds a fresh ctx whose Request is empty: IsHTTP11() read from it is always true, so an HTTP/1.0 keep-alive request gets its timeout response without 'Connection: keep-alive' while the connection is kept")
 			case isCallTo(c, fMayContinue):
 			case isCallTo(c, fContRead), isCallTo(c, fContReadS):
 				setb(st, evContRead)
